@@ -228,5 +228,17 @@ func main() {
 			}
 		}
 	}
+	// tuning knob lowered for this engine: with the store's 1-byte values a flush never reaches the shipped ideal
+	// batch size of 100 KiB; 3 bytes make a flush of two or more pending pairs go down in several batch writes
+	ifile := filepath.Join(dst, "kvdb", "interface.go")
+	if b, err := os.ReadFile(ifile); err == nil && strings.Contains(string(b), "const IdealBatchSize = 100 * 1024") {
+		nb := strings.Replace(string(b), "const IdealBatchSize = 100 * 1024", "const IdealBatchSize = 3", 1)
+		if err := os.WriteFile(ifile, []byte(nb), 0o644); err != nil {
+			die("%v", err)
+		}
+		fmt.Println("rewrite: kvdb.IdealBatchSize lowered to 3 in the scratch copy")
+	} else {
+		fmt.Println("rewrite: kvdb.IdealBatchSize not found in its usual form, left as it is")
+	}
 	fmt.Printf("rewrite: %d files rewritten in %d packages\n", n, len(targets))
 }
